@@ -13,3 +13,600 @@ Lemma seal_case_same_key E iv p :
 Proof.
   intros H1 H2 H3 H4 H5. rewrite (open_seal E H1 H2 iv p H3 H4 H5). cbn. apply bytes_eqb_refl.
 Qed.
+
+(* ====================== claims codec ====================== *)
+From OIDC Require Import C12_Codec_proofs.
+
+Lemma strs_eqb_refl l : strs_eqb l l = true.
+Proof. apply (list_eqb_spec String.eqb); [intros; apply String.eqb_eq | reflexivity]. Qed.
+
+Lemma forallb_impl {A} (p q : A -> bool) l :
+  (forall x, p x = true -> q x = true) -> forallb p l = true -> forallb q l = true.
+Proof.
+  intros H. induction l as [| x r IH]; cbn; [reflexivity |]. intros Hp.
+  apply andb_true_iff in Hp as [H1 H2]. rewrite (H x H1). now apply IH.
+Qed.
+
+Lemma existsb_cons_mono {A} (p : A -> bool) x l : existsb p l = true -> existsb p (x :: l) = true.
+Proof. intros H. cbn. rewrite H. apply orb_true_r. Qed.
+
+Lemma str_from_dec s oj : dec_opt dec_str "" oj = Ok s -> str_from s oj = true.
+Proof.
+  unfold str_from. destruct oj as [[| | | s' | |] |]; cbn; intros H; inversion H; subst; try reflexivity.
+  rewrite seqb_refl. apply orb_true_r.
+Qed.
+
+Lemma in_arr_mono e l x :
+  String.eqb x "" || in_arr x l = true -> String.eqb x "" || in_arr x (e :: l) = true.
+Proof.
+  intros H. apply orb_true_iff in H as [H | H]; [rewrite H; reflexivity |].
+  unfold in_arr in *. cbn [existsb]. rewrite H. now rewrite !orb_true_r.
+Qed.
+
+Lemma all_strs_from l : forall r, all_strs l = Some r ->
+  List.length r = List.length l /\ forallb (fun s => String.eqb s "" || in_arr s l) r = true.
+Proof.
+  induction l as [| e l IH]; cbn [all_strs mapM]; intros r H.
+  - inversion H. split; reflexivity.
+  - destruct e; try discriminate. destruct (all_strs l) as [t |]; [| discriminate].
+    inversion H; subst. destruct (IH t eq_refl) as [Hl Hf]. split; [cbn; congruence |].
+    cbn [forallb]. apply andb_true_iff. split.
+    + unfold in_arr. cbn [existsb]. rewrite seqb_refl. now rewrite orb_true_r.
+    + eapply forallb_impl; [| exact Hf]. apply in_arr_mono.
+Qed.
+
+Lemma mapM_strs_from l : forall r,
+  mapM (fun e => match e with JStr s => Ok s | JNull => Ok "" | _ => Err end) l = Ok r ->
+  List.length r = List.length l /\ forallb (fun s => String.eqb s "" || in_arr s l) r = true.
+Proof.
+  induction l as [| e l IH]; cbn [mapM]; intros r H.
+  - inversion H. split; reflexivity.
+  - destruct e; try discriminate; cbn [bind] in H;
+      destruct (mapM _ l) as [t | |]; try discriminate; cbn [bind] in H; inversion H; subst;
+      destruct (IH t eq_refl) as [Hl Hf]; (split; [cbn [List.length]; congruence |]); cbn [forallb];
+      (apply andb_true_iff; split; [| eapply forallb_impl; [| exact Hf]; apply in_arr_mono]).
+    + reflexivity.
+    + unfold in_arr. cbn [existsb]. rewrite seqb_refl. now rewrite orb_true_r.
+Qed.
+
+Local Arguments rfc_of : simpl never.
+Local Arguments lt_of : simpl never.
+Local Arguments lp_of : simpl never.
+
+Section Oracles.
+  Variable o : oracles.
+
+  Definition lp_hit (c p : string) : bool :=
+    match lp_of o p with LOk c' => String.eqb c c' | _ => false end.
+
+  Lemma parse_locales_from ps :
+    forallb (fun c => existsb (lp_hit c) ps) (parse_locales (lp_of o) ps) = true.
+  Proof.
+    induction ps as [| p ps IH]; [reflexivity |].
+    unfold parse_locales. cbn [flat_map]. rewrite forallb_app. apply andb_true_iff. split.
+    - unfold lp_hit at 1. destruct (lp_of o p) as [c | |] eqn:E; try reflexivity.
+      destruct (String.eqb c "und"); [reflexivity |]. cbn. unfold lp_hit. rewrite E, seqb_refl. reflexivity.
+    - eapply forallb_impl; [| exact IH]. intros c Hc. now apply existsb_cons_mono.
+  Qed.
+
+  Lemma all_strs_exists l : forall r c, all_strs l = Some r -> existsb (lp_hit c) r = true ->
+    existsb (fun e => match e with JStr p => lp_hit c p | _ => false end) l = true.
+  Proof.
+    induction l as [| e l IH]; cbn; intros r c H Hex.
+    - inversion H; subst. discriminate.
+    - destruct e; try discriminate. destruct (all_strs l) as [t |]; [| discriminate].
+      inversion H; subst. cbn in Hex. apply orb_true_iff in Hex as [Hx | Hx].
+      + rewrite Hx. reflexivity.
+      + rewrite (IH t c eq_refl Hx). apply orb_true_r.
+  Qed.
+
+  Lemma lookup_forall (P : json -> Prop) k ob v :
+    Forall (fun kv => P (snd kv)) ob -> lookup k ob = Some v -> P v.
+  Proof.
+    induction 1 as [| [k0 v0] r Hx _ IH]; cbn; [discriminate |].
+    destruct (String.eqb k k0); [intros E; inversion E; subst; exact Hx | exact IH].
+  Qed.
+
+  Lemma actor_from_dec : forall j a, dec_actor j = Ok a -> actor_from a j = true.
+  Proof.
+    induction j as [| b | z f | s | l IH | ob IH] using json_ind'; intros a H; try discriminate.
+    rewrite dec_actor_obj in H.
+    destruct (dec_opt dec_actor_member None (lookup "act" ob)) as [x | |] eqn:Ea; try discriminate.
+    cbn [bind] in H.
+    destruct (dec_opt dec_str "" (lookup "iss" ob)) as [i | |] eqn:Ei; try discriminate.
+    cbn [bind] in H.
+    destruct (dec_opt dec_str "" (lookup "sub" ob)) as [s | |] eqn:Es; try discriminate.
+    cbn [bind] in H. inversion H; subst a; clear H.
+    cbn [actor_from]. rewrite obj_eqb_refl, (str_from_dec _ _ Ei), (str_from_dec _ _ Es). cbn.
+    destruct x as [p |]; [| reflexivity].
+    destruct (lookup "act" ob) as [j' |] eqn:El; cbn in Ea; [| discriminate].
+    apply (lookup_forall (fun j => forall a, dec_actor j = Ok a -> actor_from a j = true) _ _ _ IH El).
+    unfold dec_actor_member in Ea. destruct j'; try discriminate.
+    destruct (dec_actor (JObj f)) as [q | |]; try discriminate. cbn in Ea. congruence.
+  Qed.
+
+  (* C12_other_forms_err_or_zero, member level: whatever a decoder accepts is
+     empty or one of the documented readings of the JSON value *)
+  Lemma from_doc_dec k j v : dec_field_o o k j = Ok v -> from_doc o k (Some j) v = true.
+  Proof.
+    unfold dec_field_o, from_doc. intros H. destruct k; cbn [dec_field] in H.
+    - (* KStr *) destruct j; cbn in H; inversion H; subst; cbn; rewrite ?seqb_refl, ?orb_true_r; reflexivity.
+    - (* KTime *) destruct j; try discriminate; try (inversion H; subst; cbn; rewrite ?Z.eqb_refl, ?orb_true_r; reflexivity).
+      destruct (rfc_of o s) eqn:E; [| discriminate]. inversion H; subst. cbn.
+      rewrite Z.eqb_refl. apply orb_true_r.
+    - (* KAud *) destruct j; try (inversion H; subst; reflexivity).
+      + inversion H; subst. cbn. rewrite seqb_refl. reflexivity.
+      + destruct (all_strs l) as [r |] eqn:E; [| discriminate]. inversion H; subst.
+        destruct (all_strs_from l r E) as [Hl Hf]. cbn [is_empty]. apply orb_true_iff. right.
+        rewrite Hl, Nat.eqb_refl. exact Hf.
+    - (* KStrs *) destruct j; try discriminate; [inversion H; subst; reflexivity |].
+      destruct (mapM _ l) as [r | |] eqn:E; try discriminate. cbn in H. inversion H; subst.
+      destruct (mapM_strs_from l r E) as [Hl Hf]. apply orb_true_iff. right.
+      rewrite Hl, Nat.eqb_refl. exact Hf.
+    - (* KSDA *) destruct j; try discriminate; inversion H; subst; cbn; [reflexivity |].
+      rewrite strs_eqb_refl. apply orb_true_r.
+    - (* KBool *) destruct j; try discriminate; inversion H; subst; [| destruct b]; reflexivity.
+    - (* KBoolS *) destruct j; try (inversion H; subst; reflexivity).
+      + destruct b; inversion H; subst; reflexivity.
+      + inversion H; subst. cbn. destruct (String.eqb s "true"); reflexivity.
+    - (* KLocale *) destruct j; try discriminate; [inversion H; subst; reflexivity |].
+      destruct (String.eqb s ""); [inversion H; subst; reflexivity |].
+      destruct (lt_of o s) as [c | |] eqn:E; try discriminate; inversion H; subst; cbn.
+      + rewrite ?E, seqb_refl. apply orb_true_r.
+      + reflexivity.
+    - (* KLocales *) destruct j; try discriminate; try (inversion H; subst; reflexivity).
+      + inversion H; subst. apply orb_true_iff. right. apply parse_locales_from.
+      + destruct (all_strs l) as [r |] eqn:E; [| discriminate]. inversion H; subst.
+        apply orb_true_iff. right.
+        eapply forallb_impl; [| apply (parse_locales_from r)].
+        intros c Hc. apply (all_strs_exists l r c E Hc).
+    - (* KActor *) destruct j; try discriminate; [inversion H; subst; reflexivity |].
+      destruct (dec_actor (JObj f)) as [a | |] eqn:E; try discriminate. cbn in H. inversion H; subst.
+      cbn [is_empty orb]. apply actor_from_dec, E.
+    - (* KAddr *) destruct j; try discriminate; [inversion H; subst; reflexivity |].
+      unfold dec_addr in H.
+      destruct (dec_opt dec_str "" (lookup "formatted" f)) as [x1 | |] eqn:E1; try discriminate; cbn [bind] in H.
+      destruct (dec_opt dec_str "" (lookup "street_address" f)) as [x2 | |] eqn:E2; try discriminate; cbn [bind] in H.
+      destruct (dec_opt dec_str "" (lookup "locality" f)) as [x3 | |] eqn:E3; try discriminate; cbn [bind] in H.
+      destruct (dec_opt dec_str "" (lookup "region" f)) as [x4 | |] eqn:E4; try discriminate; cbn [bind] in H.
+      destruct (dec_opt dec_str "" (lookup "postal_code" f)) as [x5 | |] eqn:E5; try discriminate; cbn [bind] in H.
+      destruct (dec_opt dec_str "" (lookup "country" f)) as [x6 | |] eqn:E6; try discriminate; cbn [bind] in H.
+      inversion H; subst. cbn [is_empty orb a_formatted a_street a_locality a_region a_postal a_country].
+      rewrite (str_from_dec _ _ E1), (str_from_dec _ _ E2), (str_from_dec _ _ E3),
+              (str_from_dec _ _ E4), (str_from_dec _ _ E5), (str_from_dec _ _ E6). reflexivity.
+    - (* KMap *) destruct j; try discriminate; inversion H; subst; [reflexivity |].
+      apply orb_true_iff. right. apply obj_eqb_refl.
+  Qed.
+
+  Lemma is_empty_zero k : is_empty (zero_of k) = true.
+  Proof. destruct k; reflexivity. Qed.
+
+  Lemma fields_from_dec d sch : forall vs,
+    mapM (dec_reg (rfc_of o) (lt_of o) (lp_of o) d) sch = Ok vs -> fields_from o sch vs d = true.
+  Proof.
+    induction sch as [| f s IH]; cbn; intros vs H; [inversion H; reflexivity |].
+    destruct (dec_reg _ _ _ d f) as [v | |] eqn:Ev; try discriminate. cbn [bind] in H.
+    destruct (mapM _ s) as [r | |]; try discriminate. cbn in H. inversion H; subst.
+    cbn. rewrite (IH r eq_refl), andb_true_r.
+    unfold dec_reg in Ev. destruct (lookup (fname f) d) as [j |].
+    - apply from_doc_dec, Ev.
+    - inversion Ev; subst. unfold from_doc. now rewrite is_empty_zero.
+  Qed.
+
+  Lemma fields_from_zero d sch : fields_from o sch (map (fun f => zero_of (fkind f)) sch) d = true.
+  Proof.
+    induction sch as [| f s IH]; [reflexivity |]. cbn. rewrite IH, andb_true_r.
+    unfold from_doc. now rewrite is_empty_zero.
+  Qed.
+
+  (* spec holds on the model's answer: stand-alone decoders *)
+  Theorem spec_model_decK k doc : spec (IDecK k doc o) (model (IDecK k doc o)) = true.
+  Proof.
+    cbn. destruct (dec_field_o o k doc) as [v | |] eqn:E; cbn; try reflexivity.
+    apply from_doc_dec, E.
+  Qed.
+
+  (* spec holds on the model's answer: arbitrary documents fed to a claims type *)
+  Theorem spec_model_dec ty doc : spec (IDec ty doc o) (model (IDec ty doc o)) = true.
+  Proof.
+    cbn [model]. destruct (decode_o o (schema_of ty) doc) as [[vs cl] | |] eqn:E; try reflexivity.
+    cbn [spec]. unfold decode_o, decode in E. destruct doc; try discriminate.
+    - inversion E; subst. cbn. apply fields_from_zero.
+    - destruct (mapM _ (schema_of ty)) as [r | |] eqn:Em; try discriminate. cbn in E. inversion E; subst.
+      rewrite obj_eqb_refl. cbn. apply fields_from_dec, Em.
+  Qed.
+End Oracles.
+
+(* ---------- round trips: spec holds on the model's answer ---------- *)
+Lemma opt_json_eqb_refl x : option_eqb json_eqb x x = true.
+Proof. destruct x; cbn; [apply json_eqb_refl | reflexivity]. Qed.
+
+Lemma actor_eqb_refl : forall a, actor_eqb a a = true.
+Proof.
+  induction a as [act iss sub cl IH] using actor_ind'. cbn [actor_eqb].
+  rewrite !seqb_refl, obj_eqb_refl. cbn. destruct act; [exact IH | reflexivity].
+Qed.
+
+Lemma addr_eqb_refl a : addr_eqb a a = true.
+Proof. unfold addr_eqb. now rewrite !seqb_refl. Qed.
+
+Lemma fval_eqb_refl v : fval_eqb v v = true.
+Proof.
+  destruct v as [s | z | [l |] | b | [c |] | [a |] | [a |] | m]; cbn; try reflexivity.
+  - apply seqb_refl.
+  - apply Z.eqb_refl.
+  - apply strs_eqb_refl.
+  - destruct b; reflexivity.
+  - apply seqb_refl.
+  - apply actor_eqb_refl.
+  - apply addr_eqb_refl.
+  - apply obj_eqb_refl.
+Qed.
+
+Lemma string_in_false x l : string_in x l = false -> ~ In x l.
+Proof.
+  unfold string_in. intros H Hin.
+  assert (existsb (String.eqb x) l = true) as C
+    by (apply existsb_exists; exists x; split; [exact Hin | apply seqb_refl]).
+  congruence.
+Qed.
+
+Lemma actor_pairs_keys act iss sub k : In k (keys (actor_pairs act iss sub)) -> In k actor_names.
+Proof.
+  unfold actor_pairs, str_pair, actor_names.
+  destruct act; destruct (String.eqb iss ""); destruct (String.eqb sub ""); cbn; intuition.
+Qed.
+
+Lemma actor_pairs_other k act iss sub :
+  string_in k actor_names = false -> lookup k (actor_pairs act iss sub) = None.
+Proof.
+  intros H. apply lookup_not_in. intro Hin. apply (string_in_false _ _ H).
+  eapply actor_pairs_keys; eauto.
+Qed.
+
+Lemma keep_or_read_sim s oj s' : keep_or_read s oj = Ok s' -> String.eqb s "" || String.eqb s s' = true.
+Proof.
+  unfold keep_or_read. destruct (String.eqb s ""); [reflexivity |].
+  intros H. inversion H; subst. apply seqb_refl.
+Qed.
+
+Lemma actor_sim_norm : forall a n, norm_actor a = Ok n -> actor_sim a n = true.
+Proof.
+  induction a as [act iss sub cl IH] using actor_ind'. intros n H.
+  cbn [norm_actor] in H. rewrite enc_actor_eq in H.
+  destruct (match act with
+            | Some a' => bind (norm_actor a') (fun n => Ok (Some n))
+            | None => dec_opt dec_actor_member None (lookup "act" cl)
+            end) as [act' | |] eqn:Ea; try discriminate. cbn [bind] in H.
+  destruct (keep_or_read iss (lookup "iss" cl)) as [i | |] eqn:Ei; try discriminate. cbn [bind] in H.
+  destruct (keep_or_read sub (lookup "sub" cl)) as [s | |] eqn:Es; try discriminate. cbn [bind] in H.
+  inversion H; subst n; clear H. cbn [actor_sim].
+  repeat (apply andb_true_iff; split).
+  - eapply keep_or_read_sim; eauto.
+  - eapply keep_or_read_sim; eauto.
+  - apply forallb_forall. intros [k j] Hin. cbn [fst snd].
+    destruct (string_in k actor_names) eqn:Ek; [reflexivity |]. cbn [orb].
+    rewrite lookup_overlay by apply actor_pairs_nodup.
+    rewrite actor_pairs_other by exact Ek. apply opt_json_eqb_refl.
+  - destruct act as [p |]; [| reflexivity].
+    destruct (norm_actor p) as [q | |] eqn:Ep; try discriminate. cbn in Ea. inversion Ea; subst.
+    apply IH. exact Ep.
+Qed.
+
+Lemma norm_actor_ok : forall a, actor_collision a = false -> exists n, norm_actor a = Ok n.
+Proof.
+  induction a as [act iss sub cl IH] using actor_ind'. intros Hc.
+  cbn [actor_collision] in Hc.
+  apply orb_false_iff in Hc as [Hc Hact]. apply orb_false_iff in Hc as [Hi Hs].
+  cbn [norm_actor]. rewrite enc_actor_eq.
+  assert (exists i, keep_or_read iss (lookup "iss" cl) = Ok i) as [i Ei].
+  { unfold keep_or_read. destruct (String.eqb iss ""); [| eauto]. cbn in Hi.
+    destruct (lookup "iss" cl); [discriminate | cbn; eauto]. }
+  assert (exists s, keep_or_read sub (lookup "sub" cl) = Ok s) as [s Es].
+  { unfold keep_or_read. destruct (String.eqb sub ""); [| eauto]. cbn in Hs.
+    destruct (lookup "sub" cl); [discriminate | cbn; eauto]. }
+  assert (exists x, match act with
+                    | Some a' => bind (norm_actor a') (fun n => Ok (Some n))
+                    | None => dec_opt dec_actor_member None (lookup "act" cl)
+                    end = Ok x) as [x Ex].
+  { destruct act as [p |].
+    - destruct (IH Hact) as [n Hn]. rewrite Hn. cbn. eauto.
+    - destruct (lookup "act" cl); [discriminate | cbn; eauto]. }
+  rewrite Ex, Ei, Es. cbn. eauto.
+Qed.
+
+Lemma val_rt_norm v v' : norm_val v = Ok v' -> val_rt v v' = true.
+Proof.
+  destruct v as [s | z | l | b | [c |] | [a |] | a | m]; intros H; cbn in H;
+    try (inversion H; subst; cbn [val_rt]; apply fval_eqb_refl).
+  - inversion H; subst. destruct (String.eqb c "und") eqn:E; cbn [val_rt]; [exact E |].
+    apply fval_eqb_refl.
+  - destruct (norm_actor a) as [n | |] eqn:En; try discriminate. cbn in H. inversion H; subst.
+    apply actor_sim_norm, En.
+Qed.
+
+Lemma simple_to_json k v j : simple_json v = Some j -> to_json k v = j.
+Proof. destruct v; cbn; intros H; inversion H; reflexivity. Qed.
+
+Section Round.
+  Variable o : oracles.
+  Let rfc := rfc_of o.
+  Let lt := lt_of o.
+  Let lp := lp_of o.
+
+  Lemma fields_rt_norm ty claims d : forall sch vals vals',
+    (forall f v, In (f, v) (combine sch vals) ->
+       lookup (fname f) d = match marshal_field f v with Some j => Some j | None => lookup (fname f) claims end) ->
+    List.length sch = List.length vals ->
+    mapM (norm_field rfc lt lp claims) (combine sch vals) = Ok vals' ->
+    fields_rt ty sch vals vals' d = true.
+  Proof.
+    induction sch as [| f s IH]; intros [| v r] vals' Hlk Hlen H; cbn in Hlen; try discriminate.
+    - cbn in H. inversion H. reflexivity.
+    - cbn [combine mapM] in H.
+      destruct (norm_field rfc lt lp claims (f, v)) as [v' | |] eqn:Ev; try discriminate. cbn [bind] in H.
+      destruct (mapM _ (combine s r)) as [r' | |] eqn:Er; try discriminate. cbn [bind] in H.
+      inversion H; subst vals'. cbn [fields_rt].
+      rewrite (IH r r'); [| intros; apply Hlk; now right | congruence | exact Er].
+      rewrite andb_true_r.
+      destruct (fomit f && is_empty v) eqn:Eo; [reflexivity |].
+      assert (Hm : marshal_field f v = Some (to_json (fkind f) v)) by (unfold marshal_field; now rewrite Eo).
+      cbn [norm_field] in Ev. rewrite Hm in Ev.
+      rewrite (val_rt_norm v v' Ev). cbn [andb].
+      destruct (simple_json v) as [j |] eqn:Es; [| reflexivity].
+      rewrite (Hlk f v) by now left. rewrite Hm, (simple_to_json (fkind f) v j Es).
+      apply json_eqb_refl.
+  Qed.
+
+  Lemma norm_fields_ok claims : forall sch vals,
+    unset_collision sch vals claims = false -> any_actor_collision vals = false ->
+    exists vs, mapM (norm_field rfc lt lp claims) (combine sch vals) = Ok vs.
+  Proof.
+    induction sch as [| f s IH]; intros [| v r] Hu Ha; cbn [combine mapM]; eauto.
+    cbn [unset_collision] in Hu. apply orb_false_iff in Hu as [Hu1 Hu2].
+    unfold any_actor_collision in Ha. cbn [existsb] in Ha. apply orb_false_iff in Ha as [Ha1 Ha2].
+    destruct (IH r Hu2 Ha2) as [vs Hvs]. rewrite Hvs.
+    assert (exists v', norm_field rfc lt lp claims (f, v) = Ok v') as [v' Hv'].
+    { cbn [norm_field]. unfold marshal_field.
+      destruct (fomit f && is_empty v) eqn:Eo.
+      - cbn in Hu1. destruct (lookup (fname f) claims); [discriminate | cbn; eauto].
+      - destruct v as [? | ? | ? | ? | [c |] | [a |] | ? | ?]; cbn; eauto.
+        destruct (norm_actor_ok a Ha1) as [n Hn]. rewrite Hn. cbn. eauto. }
+    rewrite Hv'. cbn. eauto.
+  Qed.
+
+  (* the assignment made by IntrospectionResponse.MarshalJSON only touches an unset member *)
+  Fixpoint unset_at (n : string) (sch : list field) (vals : list fval) : bool :=
+    match sch, vals with
+    | f :: s, v :: r => if String.eqb (fname f) n then fomit f && is_empty v else unset_at n s r
+    | _, _ => true
+    end.
+
+  Fixpoint kstr_at (n : string) (sch : list field) : bool :=
+    match sch with
+    | f :: s => if String.eqb (fname f) n
+                then fomit f && match fkind f with KStr => true | _ => false end
+                else kstr_at n s
+    | [] => true
+    end.
+
+  Lemma unset_at_get n sch : forall vals,
+    kstr_at n sch = true -> vals_wf lt sch vals = true -> get_str n sch vals = "" ->
+    unset_at n sch vals = true.
+  Proof.
+    induction sch as [| f s IH]; intros [| v r] Hk Hw Hg; cbn in *; try reflexivity.
+    apply andb_true_iff in Hw as [Hw1 Hw2].
+    destruct (String.eqb (fname f) n); [| now apply IH].
+    apply andb_true_iff in Hk as [Hk1 Hk2]. rewrite Hk1. cbn.
+    unfold wf_field in Hw1. destruct (fkind f); try discriminate. destruct v; try discriminate.
+    subst. reflexivity.
+  Qed.
+
+  Lemma set_val_wf n x sch : forall vals,
+    kstr_at n sch = true -> vals_wf lt sch vals = true ->
+    vals_wf lt sch (set_val n (VStr x) sch vals) = true.
+  Proof.
+    induction sch as [| f s IH]; intros [| v r] Hk Hw; cbn in *; try discriminate; try reflexivity.
+    apply andb_true_iff in Hw as [Hw1 Hw2].
+    destruct (String.eqb (fname f) n).
+    - cbn. rewrite Hw2, andb_true_r. apply andb_true_iff in Hk as [_ Hk].
+      unfold wf_field. destruct (fkind f); try discriminate. reflexivity.
+    - cbn. rewrite Hw1. now apply IH.
+  Qed.
+
+  Lemma set_val_fields_rt ty n x d sch : forall vals vals',
+    unset_at n sch vals = true ->
+    fields_rt ty sch (set_val n x sch vals) vals' d = true -> fields_rt ty sch vals vals' d = true.
+  Proof.
+    induction sch as [| f s IH]; intros [| v r] vals' Hu H; cbn in *; try exact H.
+    destruct (String.eqb (fname f) n).
+    - destruct vals' as [| v' r']; [discriminate |]. cbn in *. rewrite Hu. cbn.
+      apply andb_true_iff in H as [_ H]. exact H.
+    - destruct vals' as [| v' r']; [discriminate |]. cbn in *.
+      apply andb_true_iff in H as [H1 H2]. rewrite H1. cbn. eapply IH; eauto.
+  Qed.
+
+  Lemma set_val_collision n x claims sch : forall vals,
+    unset_at n sch vals = true ->
+    unset_collision sch vals claims = false ->
+    unset_collision sch (set_val n x sch vals) claims = false.
+  Proof.
+    induction sch as [| f s IH]; intros [| v r] Hu H; cbn in *; try reflexivity.
+    apply orb_false_iff in H as [H1 H2].
+    destruct (String.eqb (fname f) n).
+    - cbn. rewrite H2, orb_false_r. apply andb_true_iff in Hu as [Hf He]. rewrite Hf, He in H1.
+      cbn in H1. destruct (lookup (fname f) claims); [discriminate |]. now rewrite andb_false_r.
+    - cbn. rewrite H1. cbn. now apply IH.
+  Qed.
+
+  Lemma set_val_actor_collision n x sch : forall vals,
+    any_actor_collision vals = false -> any_actor_collision (set_val n (VStr x) sch vals) = false.
+  Proof.
+    unfold any_actor_collision.
+    induction sch as [| f s IH]; intros [| v r] H; cbn in *; try reflexivity; try exact H.
+    apply orb_false_iff in H as [H1 H2].
+    destruct (String.eqb (fname f) n); cbn; [exact H2 |]. rewrite H1. cbn. now apply IH.
+  Qed.
+
+  Lemma set_val_length n x sch : forall vals, List.length (set_val n x sch vals) = List.length vals.
+  Proof.
+    induction sch as [| f s IH]; intros [| v r]; cbn; try reflexivity.
+    destruct (String.eqb (fname f) n); cbn; [reflexivity | now rewrite IH].
+  Qed.
+
+  Lemma pre_cases ty vals :
+    pre ty vals = vals \/
+    exists x, pre ty vals = set_val "username" (VStr x) (schema_of ty) vals /\
+              get_str "username" (schema_of ty) vals = "" /\
+              kstr_at "username" (schema_of ty) = true.
+  Proof.
+    destruct ty; try (left; reflexivity). unfold pre.
+    destruct (String.eqb (get_str "username" (schema_of TIntro) vals) "") eqn:E; [| left; reflexivity].
+    right. eexists. split; [reflexivity |]. split; [now apply seqb_eq | vm_compute; reflexivity].
+  Qed.
+
+  (* C12 round trip, on the property predicate: for EVERY value of every type
+     (well-formed or not, colliding custom keys or not) the model's answer
+     satisfies the predicate *)
+  Theorem spec_model_round ty vals claims :
+    spec (IRound ty vals claims o) (model (IRound ty vals claims o)) = true.
+  Proof.
+    cbn [model spec]. unfold spec_round, rt_guard.
+    destruct (vals_wf (lt_of o) (schema_of ty) vals) eqn:Hwf; [| reflexivity].
+    set (sch := schema_of ty) in *. unfold encode_T. fold sch.
+    assert (Hpre : exists pv, pre ty vals = pv /\ vals_wf lt sch pv = true /\
+              (forall vals' d, fields_rt ty sch pv vals' d = true -> fields_rt ty sch vals vals' d = true) /\
+              (unset_collision sch vals claims = false -> unset_collision sch pv claims = false) /\
+              (any_actor_collision vals = false -> any_actor_collision pv = false)).
+    { destruct (pre_cases ty vals) as [E | [x [E [Hg Hk]]]]; fold sch in E |- *.
+      - exists vals. rewrite E. repeat split; auto.
+      - fold sch in Hg, Hk. exists (set_val "username" (VStr x) sch vals). split; [exact E |].
+        assert (Hu : unset_at "username" sch vals = true) by (apply unset_at_get; assumption).
+        split; [apply set_val_wf; assumption |]. split; [| split].
+        + intros vals' d. apply set_val_fields_rt, Hu.
+        + apply set_val_collision, Hu.
+        + apply set_val_actor_collision. }
+    destruct Hpre as [pv [Epv [Hwfp [Hrt [Hcol Hacol]]]]]. rewrite Epv.
+    unfold decode_o. fold rfc lt lp.
+    rewrite (roundtrip rfc lt lp sch pv claims (schema_nodup ty) Hwfp). unfold norm.
+    destruct (mapM (norm_field rfc lt lp claims) (combine sch pv)) as [vs' | |] eqn:Em; cbn [bind res_opt].
+    - rewrite obj_eqb_refl. cbn [andb]. apply andb_true_iff. split.
+      + apply Hrt. eapply fields_rt_norm; [| now apply (vals_wf_length lt) | exact Em].
+        intros f v Hin. apply lookup_encode_reg; [apply schema_nodup | exact Hin].
+      + apply forallb_forall. intros [k j] Hin. cbn [fst snd].
+        destruct (string_in k (map fname sch)) eqn:Ek; [reflexivity |]. cbn [orb].
+        rewrite lookup_encode_custom; [apply opt_json_eqb_refl | apply schema_nodup | now apply string_in_false].
+    - destruct (unset_collision sch vals claims) eqn:Eu; [reflexivity |].
+      destruct (any_actor_collision vals) eqn:Ea; [reflexivity |].
+      destruct (norm_fields_ok claims sch pv (Hcol eq_refl) (Hacol eq_refl)) as [vs Hvs]. congruence.
+    - destruct (unset_collision sch vals claims) eqn:Eu; [reflexivity |].
+      destruct (any_actor_collision vals) eqn:Ea; [reflexivity |].
+      destruct (norm_fields_ok claims sch pv (Hcol eq_refl) (Hacol eq_refl)) as [vs Hvs]. congruence.
+  Qed.
+End Round.
+
+(* ---------- statements as they appear in props/C12.v ---------- *)
+Lemma roundtrip_T rfc lt lp ty vals claims :
+  vals_wf lt (schema_of ty) (pre ty vals) = true ->
+  decode rfc lt lp (schema_of ty) (JObj (encode_T ty vals claims))
+  = norm rfc lt lp (schema_of ty) (pre ty vals) claims.
+Proof. intros H. unfold encode_T. apply roundtrip; [apply schema_nodup | exact H]. Qed.
+
+Lemma registered_wins_T ty vals claims f v j :
+  In (f, v) (combine (schema_of ty) (pre ty vals)) -> marshal_field f v = Some j ->
+  lookup (fname f) (encode_T ty vals claims) = Some j.
+Proof. intros Hin Hm. unfold encode_T. eapply registered_wins; eauto. apply schema_nodup. Qed.
+
+Lemma tolerant_forms rfc lt lp :
+  (forall s, dec_field rfc lt lp KAud (JStr s) = Ok (VStrs (Some [s]))) /\
+  (forall l, dec_field rfc lt lp KAud (JArr (map JStr l)) = Ok (VStrs (Some l))) /\
+  (forall z, dec_field rfc lt lp KTime (JNum z "") = Ok (VTime z)) /\
+  (forall s z, rfc s = Some z -> dec_field rfc lt lp KTime (JStr s) = Ok (VTime z)) /\
+  (dec_field rfc lt lp KBoolS (JStr "true") = Ok (VBool true) /\
+   dec_field rfc lt lp KBoolS (JBool true) = Ok (VBool true)) /\
+  (forall l, l <> [] -> forallb space_free l = true ->
+     dec_field rfc lt lp KLocales (JStr (join_sp l)) = dec_field rfc lt lp KLocales (JArr (map JStr l)) /\
+     dec_field rfc lt lp KLocales (JArr (map JStr l)) = Ok (VStrs (Some (parse_locales lp l)))) /\
+  (forall l, l <> [] -> forallb space_free l = true ->
+     dec_field rfc lt lp KSDA (JStr (join_sp l)) = Ok (VStrs (Some l))).
+Proof.
+  repeat split; intros.
+  - apply tol_aud_array.
+  - now apply tol_time_rfc3339.
+  - now apply tol_locales.
+  - now apply tol_locales.
+  - now apply tol_scope.
+Qed.
+
+Lemma other_forms_err_or_zero o k j :
+  match dec_field_o o k j with
+  | Panic => False
+  | Err => True
+  | Ok v => from_doc o k (Some j) v = true
+  end.
+Proof.
+  destruct (dec_field_o o k j) as [v | |] eqn:E; [now apply from_doc_dec | exact I |].
+  exfalso. revert E. apply dec_field_no_panic.
+Qed.
+
+Lemma decode_doc o ty doc :
+  match decode_o o (schema_of ty) doc with
+  | Panic => False
+  | Err => True
+  | Ok (vs, cl) => cl = match doc with JObj d => d | _ => [] end /\
+                   fields_from o (schema_of ty) vs cl = true
+  end.
+Proof.
+  destruct (decode_o o (schema_of ty) doc) as [[vs cl] | |] eqn:E; [| exact I |].
+  - unfold decode_o, decode in E. destruct doc; try discriminate.
+    + inversion E; subst. split; [reflexivity | apply fields_from_zero].
+    + destruct (mapM _ (schema_of ty)) as [r | |] eqn:Em; try discriminate. cbn in E. inversion E; subst.
+      split; [reflexivity | apply fields_from_dec, Em].
+  - exfalso. revert E. apply decode_no_panic.
+Qed.
+
+Definition is_codec (i : input) : bool :=
+  match i with ISeal _ _ _ _ _ _ | IOpen _ _ _ => false | _ => true end.
+
+Lemma spec_model_codec i : is_codec i = true -> spec i (model i) = true.
+Proof.
+  destruct i; cbn [is_codec]; intros H; try discriminate.
+  - apply spec_model_round.
+  - apply spec_model_dec.
+  - apply spec_model_decK.
+  - reflexivity.
+Qed.
+
+(* ---------- non-vacuity ---------- *)
+Definition ex_oracles : oracles :=
+  O [("2023-01-02T03:04:05Z", Some 1672628645%Z)] [("de-CH", LOk "de-CH")] [("en", LOk "en")].
+
+Definition ex_at_vals : list fval :=
+  [VStr "https://issuer.example.com"; VStr "alice"; VStrs (Some ["api"; "web"]); VTime 1700003600;
+   VTime 1700000000; VTime 0; VTime 0; VStr ""; VStr ""; VStrs None; VStr ""; VStr "web"; VStr "";
+   VActor (Some (Actor (Some (Actor None "" "svc" [])) "" "admin" [("iss", JStr "x"); ("team", JStr "a")]));
+   VStrs (Some ["openid"; "email"])].
+
+Definition ex_at_claims : obj :=
+  [("iss", JStr "https://evil.example"); ("nonce", JStr "from-custom"); ("role", JArr [JStr "r1"])].
+
+Example roundtrip_nonvacuous :
+  vals_wf (lt_of ex_oracles) (schema_of TAT) (pre TAT ex_at_vals) = true /\
+  lookup "iss" (encode_T TAT ex_at_vals ex_at_claims) = Some (JStr "https://issuer.example.com") /\
+  lookup "role" (encode_T TAT ex_at_vals ex_at_claims) = Some (JArr [JStr "r1"]) /\
+  exists vs, decode_o ex_oracles (schema_of TAT) (JObj (encode_T TAT ex_at_vals ex_at_claims))
+             = Ok (vs, encode_T TAT ex_at_vals ex_at_claims) /\
+             nth 0 vs (VStr "") = VStr "https://issuer.example.com" /\
+             nth 7 vs (VStr "") = VStr "from-custom".
+Proof.
+  split; [vm_compute; reflexivity |]. split; [vm_compute; reflexivity |].
+  split; [vm_compute; reflexivity |]. eexists. split; [vm_compute; reflexivity |].
+  split; vm_compute; reflexivity.
+Qed.
+
+Example tolerant_nonvacuous :
+  dec_field_o ex_oracles KTime (JStr "2023-01-02T03:04:05Z") = Ok (VTime 1672628645) /\
+  dec_field_o ex_oracles KLocales (JStr "en xx") = Ok (VStrs (Some ["en"])) /\
+  dec_field_o ex_oracles KAud (JArr [JStr "a"; JNum 1 ""]) = Err /\
+  dec_aud_unfixed (JArr [JStr "a"; JNum 1 ""]) = Panic.
+Proof. repeat split; vm_compute; reflexivity. Qed.
